@@ -254,10 +254,12 @@ func (f *File) AddChild(child Box, boxStartPos uint64) {
 		f.Ftyp = box
 	case *MoovBox:
 		f.Moov = box
-		if len(f.Moov.Trak.Mdia.Minf.Stbl.Stts.SampleCount) == 0 {
+		if !moovHasSamples(box) {
 			f.isFragmented = true
 			f.Init = NewMP4Init()
-			f.Init.AddChild(f.Ftyp)
+			if f.Ftyp != nil {
+				f.Init.AddChild(f.Ftyp)
+			}
 			f.Init.AddChild(f.Moov)
 		}
 	case *SidxBox:
@@ -316,6 +318,16 @@ func (f *File) AddChild(child Box, boxStartPos uint64) {
 		f.Mfra = box
 	}
 	f.Children = append(f.Children, child)
+}
+
+// moovHasSamples tells if the first track of moov lists samples (progressive file).
+// A moov box lacking the boxes down to stts is treated as having none.
+func moovHasSamples(moov *MoovBox) bool {
+	if moov.Trak == nil || moov.Trak.Mdia == nil || moov.Trak.Mdia.Minf == nil ||
+		moov.Trak.Mdia.Minf.Stbl == nil || moov.Trak.Mdia.Minf.Stbl.Stts == nil {
+		return false
+	}
+	return len(moov.Trak.Mdia.Minf.Stbl.Stts.SampleCount) > 0
 }
 
 // startSegmentIfNeeded starts a new segment if there is none or if position match with sidx of tfra.
